@@ -139,7 +139,9 @@ def get_next_imf(X, env_step_size=1, max_iters=1000, energy_thresh=None,
 
         # If upper or lower are None we should stop sifting altogether
         if upper is None or lower is None:
-            continue_flag = False
+            # Only an input which itself has no extrema is the final residual,
+            # if some means have already been removed there is more to sift
+            continue_flag = niters > 1
             continue_imf = False
             logger.debug('Finishing sift: IMF has no extrema')
             continue
